@@ -248,18 +248,14 @@ func (ev *Eval) rv(v EVal) []string {
 		ls := ev.vc.L.Leaves(v.T)
 		for i, l := range ls {
 			if i < len(terms) {
-				hb := *ev.heap()
-				if b, ok := ev.vc.root().heapBound[hb.H[l.Sort]]; ok {
-					hb.Alloc = b
-				}
-				ev.hyps = append(ev.hyps, ev.vc.rangeFact(terms[i], l, hb))
+				ev.hyps = append(ev.hyps, ev.vc.loadFacts(terms[i], l, *ev.heap(), v.Addr.Obj)...)
 			}
 		}
 	}
 	if closed {
 		// name the loaded leaves: keeps nested accesses (s.rounds[i] ...) small
 		ls := ev.vc.L.Leaves(v.T)
-		key := ""
+		key := ev.vc.root().factGuard + "#" + ev.vc.curR + "#"
 		for _, t := range terms {
 			key += t + "|"
 		}
@@ -278,7 +274,7 @@ func (ev *Eval) rv(v EVal) []string {
 			}
 		}
 		ev.vc.root().ldCache[key] = named
-		ev.vc.assumeLoadRanges(named, v.T, *ev.heap())
+		ev.vc.assumeLoadRanges(named, v.T, *ev.heap(), v.Addr.Obj)
 		return named
 	}
 	return terms
@@ -660,7 +656,7 @@ func (ev *Eval) expr(e Expr) (EVal, error) {
 	case *EIdent:
 		switch x.Name {
 		case "MAXSUPPLY":
-			return ival("10000000000000000000"), nil
+			return ival("4000000000000000000"), nil // config.MaxTokenSupply = 4e18
 		case "MaxInt64":
 			return ival("9223372036854775807"), nil
 		case "MaxUint64":
@@ -903,6 +899,29 @@ func (ev *Eval) index(base, idx EVal) (EVal, error) {
 		vals, _ := ev.vc.mapLookup(ev.heap(), m, u, it[0])
 		if kl, ok := ev.vc.mapKeyLeaf(u); ok {
 			ev.pats = append(ev.pats, sel(sel(ev.vc.mapDom(ev.heap(), kl), m), it[0]))
+			// well-typedness of the looked-up value (references bounded by the allocation counter
+			// of the map-heap version when the map already existed then)
+			facts := ev.vc.mapValFacts(vals, u, kl, *ev.heap(), m)
+			all := strings.Join(vals, " ")
+			if !strings.Contains(all, "q_") {
+				g := ev.vc.root().factGuard
+				if g == "" {
+					g = ev.vc.curR
+				}
+				for _, f := range facts {
+					ev.vc.assume(implies(g, f))
+				}
+			} else {
+				only := true
+				for _, nm := range qNameRe.FindAllString(all, -1) {
+					if !ev.skolemSet[nm] {
+						only = false
+					}
+				}
+				if only {
+					ev.hyps = append(ev.hyps, facts...)
+				}
+			}
 		}
 		return EVal{T: u.Elem(), Terms: vals}, nil
 	case *types.Pointer:
